@@ -9,6 +9,7 @@ import CoapLite.Lemmas.LruLemmas
 import CoapLite.Lemmas.BlockArith
 import CoapLite.Lemmas.CodecFwd
 import CoapLite.Lemmas.OptMapExtra
+import CoapLite.Lemmas.BlockHandlerBasic
 
 namespace CoapLite.Block
 
@@ -19,6 +20,38 @@ def effective (h : Handler) (k : Key) (now : Nat) : BlockState :=
 
 /-! ### entry points = core on the effective state (C12, C20) -/
 
+/-- both entry points: look up / create the state, run a core `f`, write back -/
+theorem intercept_generic (f : Request → BlockState → Request × BlockState × HRes Bool)
+    (h : Handler) (now : Nat) (req : Request) (hi : Lru.Inv h.cache now) :
+    let e := Lru.entryOrInsert h.cache (keyOf req) BlockState.default now
+    let core := f req (effective h (keyOf req) now)
+    let out : Handler × Request × HRes Bool :=
+      ({ h with cache := Lru.store e.1 (keyOf req) (f req e.2).2.1 }, (f req e.2).1, (f req e.2).2.2)
+    out.2.1 = core.1 ∧ out.2.2 = core.2.2 ∧
+    out.1.maxSize = h.maxSize ∧ out.1.cache.ttl = h.cache.ttl ∧ Lru.Inv out.1.cache now ∧
+    (∀ now', now ≤ now' → Lru.peek out.1.cache (keyOf req) now' =
+        if now' ≤ now + h.cache.ttl then some core.2.1 else none) ∧
+    (∀ k' now', k' ≠ keyOf req → now ≤ now' → Lru.peek out.1.cache k' now' = Lru.peek h.cache k' now') ∧
+    (∀ e ∈ out.1.cache.entries, now ≤ e.2.2 + h.cache.ttl) := by
+  intro e core out
+  have hv : e.2 = effective h (keyOf req) now :=
+    Lru.entry_value h.cache (keyOf req) BlockState.default now hi
+  have he := Lru.entry_inv h.cache (keyOf req) BlockState.default now hi
+  have hs := Lru.store_inv e.1 (keyOf req) (f req e.2).2.1 now he.1
+  refine ⟨?_, ?_, rfl, ?_, hs.1, ?_, ?_, ?_⟩
+  · show (f req e.2).1 = _
+    rw [hv]
+  · show (f req e.2).2.2 = _
+    rw [hv]
+  · show (Lru.store e.1 (keyOf req) (f req e.2).2.1).ttl = _
+    rw [hs.2, he.2]
+  · intro now' hle
+    show Lru.peek (Lru.store e.1 (keyOf req) (f req e.2).2.1) (keyOf req) now' = _
+    rw [Lru.peek_after_store_self h.cache (keyOf req) BlockState.default _ now now' hi hle, hv]
+  · intro k' now' hne hle
+    exact Lru.peek_after_store_other h.cache (keyOf req) k' BlockState.default _ now now' hi hne hle
+  · exact Lru.reclaimed h.cache (keyOf req) BlockState.default _ now hi
+
 theorem interceptRequest_eq (h : Handler) (now : Nat) (req : Request) (hi : Lru.Inv h.cache now) :
     let out := interceptRequest h now req
     let core := coreRequest h.maxSize req (effective h (keyOf req) now)
@@ -28,7 +61,7 @@ theorem interceptRequest_eq (h : Handler) (now : Nat) (req : Request) (hi : Lru.
         if now' ≤ now + h.cache.ttl then some core.2.1 else none) ∧
     (∀ k' now', k' ≠ keyOf req → now ≤ now' → Lru.peek out.1.cache k' now' = Lru.peek h.cache k' now') ∧
     (∀ e ∈ out.1.cache.entries, now ≤ e.2.2 + h.cache.ttl) := by
-  sorry
+  exact intercept_generic (coreRequest h.maxSize) h now req hi
 
 theorem interceptResponse_eq (h : Handler) (now : Nat) (req : Request) (hi : Lru.Inv h.cache now) :
     let out := interceptResponse h now req
@@ -39,35 +72,326 @@ theorem interceptResponse_eq (h : Handler) (now : Nat) (req : Request) (hi : Lru
         if now' ≤ now + h.cache.ttl then some core.2.1 else none) ∧
     (∀ k' now', k' ≠ keyOf req → now ≤ now' → Lru.peek out.1.cache k' now' = Lru.peek h.cache k' now') ∧
     (∀ e ∈ out.1.cache.entries, now ≤ e.2.2 + h.cache.ttl) := by
-  sorry
+  exact intercept_generic (coreResponse h.maxSize) h now req hi
 
 /-! ### replies belong to the current request (C12) -/
 
 /-- message id and token of a reply -/
 def corr (p : Packet) : Nat × Bytes := (p.header.mid, p.token)
 
+/-! ### helper lemmas: the three stages one by one -/
+
+theorem addBlockOption_eq {b : BlockValue} (h : BvOk b) (p : Packet) (n : Nat) :
+    addBlockOption p n b = .ok (p.addOption n (Spec.minimalBE b.scalar)) := by
+  have := C13.enc_minimal b (by have := h.1; omega)
+  simp only [addBlockOption, this, BlockValue.scalar]
+
+theorem splice_bound {buf pl buf' : Bytes} {off sz R : Nat}
+    (h : extendingSplice buf off (off + sz) pl R = some buf') :
+    buf'.length ≤ buf.length + R + pl.length :=
+  (splice_grow_bound buf off (off + sz) pl R buf' (by omega) h).1
+
+theorem map_corr_isSome {a b : Option Packet} (h : a.map corr = b.map corr) : a.isSome = b.isSome := by
+  cases a <;> cases b <;> simp_all
+
+/-! `serveCached` -/
+
+theorem serveCached_frame (req : Request) (rb2 : BlockValue) (cached : Packet) :
+    (serveCached req rb2 cached).1.message = req.message ∧
+    (serveCached req rb2 cached).1.source = req.source ∧
+    (serveCached req rb2 cached).1.response.map corr = req.response.map corr := by
+  unfold serveCached
+  cases hr : req.response with
+  | none => simp [hr]
+  | some resp =>
+    obtain ⟨r, hp⟩ := packetCloneLimited_total resp cached
+    obtain ⟨h1, h2, -⟩ := packetCloneLimited_spec hp
+    simp only [hp]
+    repeat' split
+    all_goals simp_all [corr, Packet.setOption]
+
+theorem serveCached_ne_panic (req : Request) (rb2 : BlockValue) (cached : Packet) (hb : rb2.num ≤ 65535) :
+    (serveCached req rb2 cached).2 ≠ .panic := by
+  unfold serveCached
+  cases hr : req.response with
+  | none => simp [notHandled]
+  | some resp =>
+    obtain ⟨r, hp⟩ := packetCloneLimited_total resp cached
+    simp only [hp]
+    split
+    · simp [badRequest]
+    · rename_i chunk more _
+      obtain ⟨bs, hbs⟩ := enc_ok_of_num (b := { rb2 with more := more }) hb
+      simp [hbs]
+
+theorem serveCached_err (req : Request) (rb2 : BlockValue) (cached : Packet) (c : Option ResponseType)
+    (h : (serveCached req rb2 cached).2 = .herr c) :
+    (c = none → req.response = none) ∧
+    (∀ rt, c = some rt → rt = .InternalServerError ∨ rt = .BadRequest) := by
+  unfold serveCached at h
+  cases hr : req.response with
+  | none =>
+    simp only [hr, notHandled, HRes.herr.injEq] at h
+    subst h; simp
+  | some resp =>
+    obtain ⟨r, hp⟩ := packetCloneLimited_total resp cached
+    simp only [hr, hp] at h
+    repeat' split at h
+    all_goals simp_all [badRequest, internal]
+    all_goals (subst h; simp)
+
+/-! `handleBlock1` -/
+
+theorem handleBlock1_frame (req : Request) (M : Nat) (st : BlockState) :
+    (handleBlock1 req M st).1.response.map corr = req.response.map corr ∧
+    (handleBlock1 req M st).1.source = req.source ∧
+    (handleBlock1 req M st).1.message.header = req.message.header ∧
+    (handleBlock1 req M st).1.message.token = req.message.token ∧
+    (handleBlock1 req M st).1.message.options = req.message.options ∧
+    (handleBlock1 req M st).2.1.lastBlock2 = st.lastBlock2 ∧
+    (handleBlock1 req M st).2.1.cachedResponse = st.cachedResponse := by
+  unfold handleBlock1
+  simp only
+  cases hsz : computeMessageSize req.message with
+  | panic => simp
+  | herr c => simp
+  | ok size =>
+    simp only
+    cases hn : negotiate (firstBlock req.message block1Num) size req.message.payload.length M with
+    | panic => simp
+    | herr c => simp
+    | ok r =>
+      cases r with
+      | none => simp only; split <;> simp_all
+      | some resp1 =>
+        have hok := addBlockOption_eq (negotiate_ok_bv hn)
+        simp only
+        repeat' split
+        all_goals simp_all [corr, setCode, Packet.addOption]
+        all_goals (subst_vars; simp)
+
+theorem handleBlock1_ne_panic (req : Request) (M : Nat) (st : BlockState) :
+    (handleBlock1 req M st).2.2 ≠ .panic := by
+  unfold handleBlock1
+  simp only
+  cases hsz : computeMessageSize req.message with
+  | panic => exact absurd hsz (computeMessageSize_ne_panic _)
+  | herr c => simp
+  | ok size =>
+    simp only
+    cases hn : negotiate (firstBlock req.message block1Num) size req.message.payload.length M with
+    | panic => exact absurd hn (negotiate_never_panics _ _ _ _)
+    | herr c => simp
+    | ok r =>
+      cases r with
+      | none => simp only; split <;> simp_all
+      | some resp1 =>
+        have hok := addBlockOption_eq (negotiate_ok_bv hn)
+        simp only
+        repeat' split
+        all_goals simp_all [internal, notHandled]
+
+theorem handleBlock1_err (req : Request) (M : Nat) (st : BlockState) (c : Option ResponseType)
+    (h : (handleBlock1 req M st).2.2 = .herr c) :
+    (c = none → req.response = none) ∧
+    (∀ rt, c = some rt → rt = .InternalServerError ∨ rt = .BadRequest) := by
+  unfold handleBlock1 at h
+  simp only at h
+  cases hsz : computeMessageSize req.message with
+  | panic => simp [hsz] at h
+  | herr c' =>
+    simp only [hsz, HRes.herr.injEq] at h
+    subst h
+    simp [computeMessageSize_err hsz]
+  | ok size =>
+    simp only [hsz] at h
+    cases hn : negotiate (firstBlock req.message block1Num) size req.message.payload.length M with
+    | panic => simp [hn] at h
+    | herr c' =>
+      simp only [hn, HRes.herr.injEq] at h
+      subst h
+      simp [negotiate_err _ _ _ _ _ hn]
+    | ok r =>
+      simp only [hn] at h
+      cases r with
+      | none => split at h <;> simp_all
+      | some resp1 =>
+        have hok := addBlockOption_eq (negotiate_ok_bv hn)
+        repeat' split at h
+        all_goals simp_all [internal, notHandled]
+        all_goals (subst h; simp)
+
+theorem handleBlock1_buffer (req : Request) (M : Nat) (st : BlockState) :
+    ((handleBlock1 req M st).2.1.cachedPayload.getD []).length ≤
+      (st.cachedPayload.getD []).length + Consts.maxUncommittedReserve + req.message.payload.length := by
+  unfold handleBlock1
+  simp only
+  cases hsz : computeMessageSize req.message with
+  | panic => simp only; omega
+  | herr c => simp only; omega
+  | ok size =>
+    simp only
+    cases hn : negotiate (firstBlock req.message block1Num) size req.message.payload.length M with
+    | panic => simp only; omega
+    | herr c => simp only; omega
+    | ok r =>
+      cases r with
+      | none => simp only; split <;> first | (simp only; omega) | simp_all
+      | some resp1 =>
+        simp only
+        repeat' split
+        all_goals (try (have hsb := splice_bound ‹extendingSplice _ _ _ _ _ = some _›))
+        all_goals simp_all
+        all_goals omega
+
+/-! `handleBlock2` -/
+
+theorem handleBlock2_frame (req : Request) (st : BlockState) :
+    (handleBlock2 req st).1.message = req.message ∧
+    (handleBlock2 req st).1.source = req.source ∧
+    (handleBlock2 req st).1.response.map corr = req.response.map corr ∧
+    (handleBlock2 req st).2.1.cachedPayload = st.cachedPayload := by
+  unfold handleBlock2
+  simp only
+  split
+  · rename_i b2 cached _ _
+    have hf := serveCached_frame req b2 cached
+    rcases hsc : serveCached req b2 cached with ⟨req', r⟩
+    rw [hsc] at hf
+    cases r with
+    | ok more => cases more <;> simpa using hf
+    | herr c => simpa using hf
+    | panic => simpa using hf
+  · simp
+
+theorem handleBlock2_ne_panic (req : Request) (st : BlockState) :
+    (handleBlock2 req st).2.2 ≠ .panic := by
+  unfold handleBlock2
+  simp only
+  split
+  · rename_i b2 cached hb _
+    have hf := serveCached_ne_panic req b2 cached (firstBlock_ok hb).1
+    rcases hsc : serveCached req b2 cached with ⟨req', r⟩
+    rw [hsc] at hf
+    cases r with
+    | ok more => simp
+    | herr c => simp
+    | panic => simp at hf
+  · simp
+
+theorem handleBlock2_err (req : Request) (st : BlockState) (c : Option ResponseType)
+    (h : (handleBlock2 req st).2.2 = .herr c) :
+    (c = none → req.response = none) ∧
+    (∀ rt, c = some rt → rt = .InternalServerError ∨ rt = .BadRequest) := by
+  unfold handleBlock2 at h
+  simp only at h
+  split at h
+  · rename_i b2 cached hb _
+    have hf := serveCached_err req b2 cached c
+    rcases hsc : serveCached req b2 cached with ⟨req', r⟩
+    rw [hsc] at hf h
+    cases r with
+    | ok more => simp at h
+    | herr c' => exact hf (by simpa using h)
+    | panic => simp at h
+  · simp at h
+
+/-! the two cores as compositions of the stages -/
+
+theorem coreRequest_cases (M : Nat) (req : Request) (st : BlockState) :
+    (coreRequest M req st = handleBlock1 req M st ∧ (handleBlock1 req M st).2.2 ≠ .ok false) ∨
+    ((handleBlock1 req M st).2.2 = .ok false ∧
+      coreRequest M req st = handleBlock2 (handleBlock1 req M st).1 (handleBlock1 req M st).2.1) := by
+  unfold coreRequest
+  rcases h : handleBlock1 req M st with ⟨r1, s1, res⟩
+  cases res with
+  | ok b => cases b <;> simp
+  | herr c => simp
+  | panic => simp
+
+theorem coreResponse_cases (M : Nat) (req : Request) (st : BlockState) :
+    coreResponse M req st = (req, st, .ok false) ∨
+    coreResponse M req st = (req, st, internal) ∨
+    ∃ resp rb2, req.response = some resp ∧ BvOk rb2 ∧
+      (coreResponse M req st).1 = (serveCached req rb2 resp).1 ∧
+      (coreResponse M req st).2.2 = (serveCached req rb2 resp).2 ∧
+      (coreResponse M req st).2.1.cachedPayload = st.cachedPayload := by
+  unfold coreResponse
+  cases hr : req.response with
+  | none => simp
+  | some resp =>
+    simp only
+    split
+    · simp
+    · cases hsz : computeMessageSize resp with
+      | panic => exact absurd hsz (computeMessageSize_ne_panic _)
+      | herr c => simp [computeMessageSize_err hsz, internal]
+      | ok size =>
+        simp only
+        cases hn : negotiate st.lastBlock2 size resp.payload.length M with
+        | panic => exact absurd hn (negotiate_never_panics _ _ _ _)
+        | herr c => simp [negotiate_err _ _ _ _ _ hn, internal]
+        | ok r =>
+          cases r with
+          | none => simp
+          | some rb2 =>
+            right; right
+            refine ⟨resp, rb2, rfl, negotiate_ok_bv hn, ?_⟩
+            simp only
+            rcases hsc : serveCached req rb2 resp with ⟨req', r⟩
+            cases r with
+            | ok more => cases more <;> simp
+            | herr c => simp
+            | panic => simp
+
 theorem coreRequest_corr (M : Nat) (req : Request) (st : BlockState) :
     let out := coreRequest M req st
     out.1.response.map corr = req.response.map corr ∧
     out.1.source = req.source ∧ out.1.message.header = req.message.header ∧
     out.1.message.token = req.message.token ∧ out.1.message.options = req.message.options := by
-  sorry
+  intro out
+  have h1 := handleBlock1_frame req M st
+  rcases coreRequest_cases M req st with ⟨h, _⟩ | ⟨_, h⟩
+  · show (coreRequest M req st).1.response.map corr = _ ∧ (coreRequest M req st).1.source = _ ∧
+      (coreRequest M req st).1.message.header = _ ∧ (coreRequest M req st).1.message.token = _ ∧
+      (coreRequest M req st).1.message.options = _
+    rw [h]
+    exact ⟨h1.1, h1.2.1, h1.2.2.1, h1.2.2.2.1, h1.2.2.2.2.1⟩
+  · have h2 := handleBlock2_frame (handleBlock1 req M st).1 (handleBlock1 req M st).2.1
+    show (coreRequest M req st).1.response.map corr = _ ∧ (coreRequest M req st).1.source = _ ∧
+      (coreRequest M req st).1.message.header = _ ∧ (coreRequest M req st).1.message.token = _ ∧
+      (coreRequest M req st).1.message.options = _
+    rw [h, h2.1, h2.2.1, h2.2.2.1]
+    exact ⟨h1.1, h1.2.1, h1.2.2.1, h1.2.2.2.1, h1.2.2.2.2.1⟩
 
 theorem coreResponse_corr (M : Nat) (req : Request) (st : BlockState) :
     let out := coreResponse M req st
     out.1.response.map corr = req.response.map corr ∧ out.1.message = req.message ∧
     out.1.source = req.source := by
-  sorry
+  intro out
+  show (coreResponse M req st).1.response.map corr = _ ∧ (coreResponse M req st).1.message = _ ∧
+    (coreResponse M req st).1.source = _
+  rcases coreResponse_cases M req st with h | h | ⟨resp, rb2, _, _, h, _, _⟩
+  · rw [h]; exact ⟨rfl, rfl, rfl⟩
+  · rw [h]; exact ⟨rfl, rfl, rfl⟩
+  · rw [h]
+    have hf := serveCached_frame req rb2 resp
+    exact ⟨hf.2.2, hf.1, hf.2.1⟩
 
 /-! ### hostile traffic (C11) -/
 
 theorem coreRequest_never_panics (M : Nat) (req : Request) (st : BlockState) :
     (coreRequest M req st).2.2 ≠ .panic := by
-  sorry
+  rcases coreRequest_cases M req st with ⟨h, _⟩ | ⟨_, h⟩
+  · rw [h]; exact handleBlock1_ne_panic req M st
+  · rw [h]; exact handleBlock2_ne_panic _ _
 
 theorem coreResponse_never_panics (M : Nat) (req : Request) (st : BlockState) :
     (coreResponse M req st).2.2 ≠ .panic := by
-  sorry
+  rcases coreResponse_cases M req st with h | h | ⟨resp, rb2, _, hb, _, h, _⟩
+  · rw [h]; simp
+  · rw [h]; simp [internal]
+  · rw [h]; exact serveCached_ne_panic req rb2 resp hb.1
 
 /-- every handling error can be rendered: a code-less error (`not_handled`)
 arises only when there is no prepared reply to render into; every coded error
@@ -76,20 +400,41 @@ theorem coreRequest_err (M : Nat) (req : Request) (st : BlockState) (c : Option 
     (h : (coreRequest M req st).2.2 = .herr c) :
     (c = none → req.response = none) ∧
     (∀ rt, c = some rt → rt = .InternalServerError ∨ rt = .BadRequest) := by
-  sorry
+  rcases coreRequest_cases M req st with ⟨h', _⟩ | ⟨_, h'⟩
+  · rw [h'] at h; exact handleBlock1_err req M st c h
+  · rw [h'] at h
+    have h2 := handleBlock2_err _ _ c h
+    refine ⟨fun hc => ?_, h2.2⟩
+    have h3 := h2.1 hc
+    have h4 := map_corr_isSome (handleBlock1_frame req M st).1
+    rw [h3] at h4
+    cases hr : req.response with
+    | none => rfl
+    | some r => rw [hr] at h4; simp at h4
 
 theorem coreResponse_err (M : Nat) (req : Request) (st : BlockState) (c : Option ResponseType)
     (h : (coreResponse M req st).2.2 = .herr c) :
     (c = none → req.response = none) ∧
     (∀ rt, c = some rt → rt = .InternalServerError ∨ rt = .BadRequest) := by
-  sorry
+  rcases coreResponse_cases M req st with h' | h' | ⟨resp, rb2, hr, _, _, h', _⟩
+  · rw [h'] at h; simp at h
+  · rw [h'] at h
+    simp only [internal, HRes.herr.injEq] at h
+    subst h; simp
+  · rw [h'] at h
+    have h2 := serveCached_err req rb2 resp c h
+    refine ⟨fun hc => ?_, h2.2⟩
+    have := h2.1 hc
+    rw [hr] at this; simp at this
 
 /-- no single request makes the buffered upload grow by more than the 16 KiB
 reserve beyond the request's own payload -/
 theorem coreRequest_buffer_growth (M : Nat) (req : Request) (st : BlockState) :
     ((coreRequest M req st).2.1.cachedPayload.getD []).length ≤
       (st.cachedPayload.getD []).length + Consts.maxUncommittedReserve + req.message.payload.length := by
-  sorry
+  rcases coreRequest_cases M req st with ⟨h, _⟩ | ⟨_, h⟩
+  · rw [h]; exact handleBlock1_buffer req M st
+  · rw [h, (handleBlock2_frame _ _).2.2.2]; exact handleBlock1_buffer req M st
 
 /-- a block whose end lies more than the reserve beyond the buffered data is
 rejected with an error and leaves the buffered data unchanged -/
@@ -101,13 +446,30 @@ theorem coreRequest_oversize_jump (M : Nat) (req : Request) (st : BlockState) (r
     (hjump : rb1.num * rb1.size + rb1.size - (st.cachedPayload.getD []).length > Consts.maxUncommittedReserve) :
     (coreRequest M req st).2.2 = .herr (some .InternalServerError) ∧
     (coreRequest M req st).2.1.cachedPayload.getD [] = st.cachedPayload.getD [] := by
-  sorry
+  have hbv := firstBlock_ok hb
+  have hok := addBlockOption_eq (negotiate_ok_bv hn)
+  have hsize : rb1.size ≤ 2048 := by
+    unfold BlockValue.size
+    have : 2 ^ (rb1.szx + 4) ≤ 2 ^ 11 := Nat.pow_le_pow_right (by omega) (by have := hbv.2; omega)
+    simpa using this
+  have hnum : ¬ rb1.num = 0 := by
+    intro h0
+    rw [h0] at hjump
+    simp only [Consts.maxUncommittedReserve] at hjump
+    omega
+  have hrej := splice_reject (st.cachedPayload.getD []) (rb1.num * rb1.size)
+    (rb1.num * rb1.size + rb1.size) req.message.payload _ hjump
+  have h1 : handleBlock1 req M st =
+      (req, { st with cachedPayload := some (st.cachedPayload.getD []) }, internal) := by
+    simp only [handleBlock1, hb, hsz, hn, hnum, ↓reduceIte, hrej]
+  simp only [coreRequest, h1]
+  exact ⟨rfl, rfl⟩
 
 /-- the response does not change its response-present status -/
 theorem core_response_isSome (M : Nat) (req : Request) (st : BlockState) :
     (coreRequest M req st).1.response.isSome = req.response.isSome ∧
     (coreResponse M req st).1.response.isSome = req.response.isSome := by
-  sorry
+  exact ⟨map_corr_isSome (coreRequest_corr M req st).1, map_corr_isSome (coreResponse_corr M req st).1⟩
 
 /-! ### a block served from the cache (C08) -/
 
@@ -127,13 +489,31 @@ theorem serveCached_spec (req : Request) (resp : Packet) (rb2 : BlockValue) (cac
       resp'.getOption block2Num = some [bs] ∧
       (∀ n, n ≠ block2Num → (cached.getOption n).isSome → resp'.getOption n = cached.getOption n) ∧
       (∀ n, n ≠ block2Num → cached.getOption n = none → resp'.getOption n = resp.getOption n) := by
-  sorry
+  obtain ⟨r, hp⟩ := packetCloneLimited_total resp cached
+  obtain ⟨h1, h2, -, h4, h5⟩ := packetCloneLimited_spec hp
+  obtain ⟨bs, hbs⟩ := enc_ok_of_num (b := { rb2 with more := more }) hb.1
+  refine ⟨({ r with payload := chunk } : Packet).setOption block2Num [bs], bs, ?_, hbs, rfl, ?_, h4, ?_, ?_, ?_⟩
+  · simp only [serveCached, hr, hp, hc, hbs]
+  · simp only [corr, Packet.setOption, h1, h2]
+  · simp only [Packet.getOption, Packet.setOption, OptMap.get_insert, ↓reduceIte]
+  · intro n hn hsome
+    have := h5 hcs n
+    simp only [Packet.getOption, Packet.setOption, OptMap.get_insert, hn, ↓reduceIte] at this hsome ⊢
+    rw [this]
+    cases hg : OptMap.get cached.options n with
+    | none => rw [hg] at hsome; simp at hsome
+    | some v => rfl
+  · intro n hn hnone
+    have := h5 hcs n
+    simp only [Packet.getOption, Packet.setOption, OptMap.get_insert, hn, ↓reduceIte] at this hnone ⊢
+    rw [this, hnone]
 
 theorem serveCached_out_of_range (req : Request) (resp : Packet) (rb2 : BlockValue) (cached : Packet)
     (hr : req.response = some resp)
     (hc : chunkAt cached.payload rb2.size rb2.num = none) :
     (serveCached req rb2 cached).2 = .herr (some .BadRequest) := by
-  sorry
+  obtain ⟨r, hp⟩ := packetCloneLimited_total resp cached
+  simp only [serveCached, hr, hp, hc, badRequest]
 
 /-- follow-up block request while a response is cached: served from the cache
 (the application is not consulted: result `ok true`), entry released iff this
@@ -145,14 +525,26 @@ theorem handleBlock2_cached (req : Request) (st : BlockState) (b2 : BlockValue) 
       | (req', .ok more) =>
         (req', { st with lastBlock2 := some b2, cachedResponse := if more then some cached else none }, .ok true)
       | (req', r) => (req', { st with lastBlock2 := some b2 }, r) := by
-  sorry
+  simp only [handleBlock2, hb, hc]
+  rcases hsc : serveCached req b2 cached with ⟨req', r⟩
+  cases r with
+  | ok more => cases more <;> rfl
+  | herr c => rfl
+  | panic => rfl
 
 /-- without a cached response (none yet, released, or expired) or without a
 Block2 option the request goes to the application -/
 theorem handleBlock2_pass (req : Request) (st : BlockState)
     (h : firstBlock req.message block2Num = none ∨ st.cachedResponse = none) :
     handleBlock2 req st = (req, { st with lastBlock2 := firstBlock req.message block2Num }, .ok false) := by
-  sorry
+  unfold handleBlock2
+  simp only
+  split
+  · rename_i b2 cached hb hc
+    rcases h with h | h
+    · rw [h] at hb; simp at hb
+    · rw [h] at hc; simp at hc
+  · rfl
 
 /-- first block of a fragmented response: the application's reply is cached iff
 more blocks follow -/
@@ -165,14 +557,15 @@ theorem coreResponse_fragment (M : Nat) (req : Request) (st : BlockState) (resp 
       match serveCached req rb2 resp with
       | (req', .ok true) => (req', { st with cachedResponse := some resp }, .ok true)
       | (req', r) => (req', st, r) := by
-  sorry
+  simp only [coreResponse, hr, hno, Option.isSome_none, Bool.false_eq_true, ↓reduceIte, hsz, hn]
+  rfl
 
 theorem coreResponse_unfragmented (M : Nat) (req : Request) (st : BlockState) (resp : Packet) (size : Nat)
     (hr : req.response = some resp) (hno : resp.getOption block2Num = none)
     (hsz : computeMessageSize resp = .ok size)
     (hn : negotiate st.lastBlock2 size resp.payload.length M = .ok none) :
     coreResponse M req st = (req, st, .ok false) := by
-  sorry
+  simp only [coreResponse, hr, hno, Option.isSome_none, Bool.false_eq_true, ↓reduceIte, hsz, hn]
 
 /-! ### an upload step (C09) -/
 
@@ -193,7 +586,17 @@ theorem handleBlock1_step (req : Request) (M : Nat) (st : BlockState) (rb1 resp1
         else
           ({ req with message := { req.message with payload := buf' }, response := some resp' },
            { st with cachedPayload := none }, .ok false) := by
-  sorry
+  have hok := addBlockOption_eq hok resp block1Num
+  refine ⟨_, _, C13.enc_minimal resp1 (by have := ‹BvOk resp1›.1; omega), rfl, ?_⟩
+  by_cases h0 : rb1.num = 0
+  · simp only [h0, ↓reduceIte, Nat.zero_mul, Nat.zero_add] at hsp
+    cases hm : rb1.more
+    · simp [handleBlock1, hb, hsz, hn, h0, hsp, hm, hr, hok, BlockValue.scalar]
+    · simp [handleBlock1, hb, hsz, hn, h0, hsp, hm, hr, hok, BlockValue.scalar]
+  · simp only [h0, ↓reduceIte] at hsp
+    cases hm : rb1.more
+    · simp [handleBlock1, hb, hsz, hn, h0, hsp, hm, hr, hok, BlockValue.scalar]
+    · simp [handleBlock1, hb, hsz, hn, h0, hsp, hm, hr, hok, BlockValue.scalar]
 
 /-- a request too large for the budget that carries no Block1 option is answered
 4.13 with a Block1 size hint instead of being processed -/
@@ -206,14 +609,16 @@ theorem handleBlock1_too_large (req : Request) (M : Nat) (st : BlockState) (resp
     ∃ bs, resp1.enc = .ok bs ∧
       handleBlock1 req M st =
         ({ req with response := some (setCode (resp.addOption block1Num bs) .RequestEntityTooLarge) }, st, .ok true) := by
-  sorry
+  have hok' := addBlockOption_eq hok resp block1Num
+  refine ⟨_, C13.enc_minimal resp1 (by have := hok.1; omega), ?_⟩
+  simp [handleBlock1, hb, hsz, hn, hr, hok', BlockValue.scalar]
 
 theorem handleBlock1_pass (req : Request) (M : Nat) (st : BlockState) (size : Nat)
     (hb : firstBlock req.message block1Num = none)
     (hsz : computeMessageSize req.message = .ok size)
     (hn : negotiate none size req.message.payload.length M = .ok none) :
     handleBlock1 req M st = (req, st, .ok false) := by
-  sorry
+  simp only [handleBlock1, hb, hsz, hn]
 
 /-! ### keys (C12) -/
 
@@ -223,6 +628,7 @@ theorem keyOf_eq_iff (r₁ r₂ : Request) :
        (match r₁.getPathAsVec with | .ok l => l | _ => []) =
          (match r₂.getPathAsVec with | .ok l => l | _ => []) ∧
        r₁.source = r₂.source) := by
-  sorry
+  simp only [keyOf, Key.mk.injEq]
+  exact Iff.rfl
 
 end CoapLite.Block
